@@ -34,6 +34,7 @@ type c14Budget struct {
 	dups     int
 	expires  int
 	restarts int // a router loses its keys and pending state (process restart)
+	cleans   int // ticks of the once-a-minute cleaner of the ping handlers
 	steps    int
 	prekey   bool // start from an established session
 }
@@ -206,6 +207,8 @@ func c14Run(c *core.Case, bud c14Budget, ia, ib int) {
 	w.bud = bud
 	initsLeft := bud.inits
 	drops, dups, expires, restarts := bud.drops, bud.dups, bud.expires, bud.restarts
+	cleans := bud.cleans
+	expiredUnanswered := [2]bool{} // router i holds an expired hello state that was never answered
 	for step := 0; step < bud.steps; step++ {
 		type act struct {
 			kind string
@@ -246,6 +249,19 @@ func c14Run(c *core.Case, bud c14Budget, ia, ib int) {
 				}
 			}
 		}
+		if cleans > 0 {
+			for i := 0; i < 2; i++ {
+				// Known finding (known_findings.json): the cleaner forgets a hello that
+				// has expired without an answer; if that hello is still under way and
+				// the other router starts a setup of its own, both end up established
+				// on different exchanges. Such ticks are left out (and counted).
+				if expiredUnanswered[i] && core.Known("C14", "cleaner-forgets-unanswered-hello") {
+					c.Excluded("cleaner-forgets-unanswered-hello")
+					continue
+				}
+				acts = append(acts, act{"clean", i})
+			}
+		}
 		if len(acts) == 0 {
 			break
 		}
@@ -254,8 +270,10 @@ func c14Run(c *core.Case, bud c14Budget, ia, ib int) {
 		case "init":
 			initsLeft[a.arg]--
 			w.packet(a.arg)
+			expiredUnanswered[a.arg] = false // a new hello replaces the old state
 		case "restart":
 			restarts--
+			expiredUnanswered[a.arg] = false
 			x, y := w.n[a.arg], w.n[1-a.arg]
 			_ = x.St.SetEncryptionSession(y.IP(), nil)
 			x.Rtr.VerifExpireHello(y.IP())
@@ -274,8 +292,16 @@ func c14Run(c *core.Case, bud c14Budget, ia, ib int) {
 			cp := *fl
 			w.vn.Queue = append(w.vn.Queue, &cp)
 			w.log("duplicate %s", w.describe(fl))
+		case "clean":
+			cleans--
+			// What the router's cleaner worker does every minute; nothing has expired here.
+			_ = w.n[a.arg].Rtr.HelloPing.Clean(nil)
+			w.log("cleaner tick at %s", w.n[a.arg].Name)
 		case "expire":
 			expires--
+			if _, done := w.n[a.arg].Rtr.VerifHelloPending(w.n[1-a.arg].IP()); !done {
+				expiredUnanswered[a.arg] = true
+			}
 			w.n[a.arg].Rtr.VerifExpireHello(w.n[1-a.arg].IP())
 			initsLeft[a.arg]++ // a retry becomes possible
 			w.log("pending hello of %s expires", w.n[a.arg].Name)
@@ -314,6 +340,7 @@ func TestC14Exhaustive(t *testing.T) {
 		{"cross-drop1", c14Budget{inits: [2]int{1, 1}, drops: 1, steps: 8}},
 		{"cross-dup1", c14Budget{inits: [2]int{1, 1}, dups: 1, steps: 9}},
 		{"cross-prekeyed", c14Budget{inits: [2]int{1, 1}, steps: 8, prekey: true}},
+		{"cross-clean1", c14Budget{inits: [2]int{1, 1}, cleans: 1, steps: 8}},
 		{"single-drop-expire-retry", c14Budget{inits: [2]int{1, 0}, drops: 1, expires: 1, steps: 8}},
 		{"prekeyed-restart", c14Budget{inits: [2]int{1, 1}, restarts: 1, steps: 8, prekey: true}},
 	}
@@ -346,6 +373,7 @@ func TestC14Random(t *testing.T) {
 			dups:     c.Int("dups", 0, 2),
 			expires:  c.Int("expires", 0, 3),
 			restarts: c.Int("restarts", 0, 2),
+			cleans:   c.Int("cleans", 0, 2),
 			steps:    c.Int("steps", 2, 30),
 			prekey:   c.Bool("prekey"),
 		}
